@@ -339,6 +339,9 @@ def parse_module(text):
         if s == "}": cur = None; continue
         mm = re.match(r'("[^"]*"|[\w.$-]+):', s)
         if mm:
+            if blk == cur.entry_label and not cur.blocks[blk]:
+                # the entry block carries an explicit label (-fno-discard-value-names)
+                del cur.blocks[blk]; cur.order.remove(blk); cur.entry_label = mm.group(1)
             blk = mm.group(1); cur.blocks[blk] = []; cur.order.append(blk); continue
         cur.blocks[blk].append(parse_instr(s))
     return m
@@ -611,8 +614,12 @@ class Engine:
             if a.obj != b.obj:
                 if pred == "eq": return False
                 if pred == "ne": return True
-                raise Unsupported("relational compare of pointers into different objects")
-            a, b, bits = a.off, b.off, 64
+                # relational compare of pointers into different objects (undefined in ISO C; recorded as a note by the caller):
+                # modelled with the synthetic address space used by ptrtoint (objects 2^40 apart, in allocation order)
+                s.ptrcmp_notes = getattr(s, "ptrcmp_notes", 0) + 1
+                a, b, bits = Engine.add64(a.obj << 40, a.off), Engine.add64(b.obj << 40, b.off), 64
+            else:
+                a, b, bits = a.off, b.off, 64
         if is_c(a) and is_c(b):
             sa, sb = tosigned(a, bits), tosigned(b, bits)
             return {"eq": a == b, "ne": a != b, "ult": a < b, "ule": a <= b, "ugt": a > b, "uge": a >= b,
@@ -811,10 +818,12 @@ class Engine:
             else: raise Unsupported(op)
     def intrinsic(s, st, name, argv, args):
         if name.startswith("llvm.lifetime") or name.startswith("llvm.dbg") or name.startswith("llvm.assume") or name.startswith("llvm.experimental.noalias"): return None
+        if name in ("memcpy", "memmove"): name = "llvm." + name + ".ext"
+        if name == "memset": name = "llvm.memset.ext"
         if name.startswith("llvm.memcpy") or name.startswith("llvm.memmove"):
             dst, src, n = argv[0], argv[1], simp(argv[2])
             if not is_c(n): raise NeedConcrete(argv[2])
-            if n == 0: return None
+            if n == 0: return dst if name.endswith(".ext") else None
             bs = s.load_bytes(st, src, n, name)
             if name.startswith("llvm.memcpy") and dst.obj == src.obj and is_c(dst.off) and is_c(src.off) and abs(dst.off - src.off) < n and dst.off != src.off:
                 raise Violation("memcpy-overlap", name, list(st.pc))
@@ -826,12 +835,14 @@ class Engine:
                     o.data[off + k] = bs[k]; o.ptrs.pop(off + k, None)
                     if is_c(src.off) and (src.off + k) in so.ptrs: o.ptrs[off + k] = so.ptrs[src.off + k]
             else: s.store_bytes(st, dst, bs, name)
-            return None
+            return dst if name.endswith(".ext") else None
         if name.startswith("llvm.memset"):
             dst, v, n = argv[0], argv[1], simp(argv[2])
             if not is_c(n): raise NeedConcrete(argv[2])
+            if not is_c(v): v = simp(z3.Extract(7, 0, v)) if v.size() > 8 else v
+            else: v &= 0xFF
             if n: s.store_bytes(st, dst, [v] * n, name)
-            return None
+            return dst if name.endswith(".ext") else None
         if name.startswith("llvm.fabs"):
             bits = 32 if "f32" in name else 64; x = argv[0]
             return x & mask(bits - 1) if is_c(x) else simp(x & mask(bits - 1))
